@@ -92,6 +92,10 @@ pub fn check_text(run: &mut Run, text: &str, gen: &str, expect: Expect) -> Optio
     match tokenize_caught(text) {
         Caught::Done(Ok(tokens)) => {
             case_tokens(run, tokens.clone(), gen, &short(text));
+            // the whole pipeline tokens -> tree -> statement against the model's parser + lowering
+            let (answer, skind) = run_parse(text);
+            run.count(&format!("lowered:{}", skind));
+            run.case_with_desc(format!("stmt {} {}", tokens_sexp(&tokens), regex_oracle(&tokens)), answer, format!("stmt:{}:{}", gen, skind), short(text));
             Some(tokens)
         }
         Caught::Done(Err(_)) => { run.count("tokenize-error"); run.tags.insert(format!("{}:{}", gen, kind)); None }
@@ -133,6 +137,21 @@ const NEAR_MISS: &[&str] = &[
     "SELECT count(DISTINCT) FROM t", "SELECT count(DISTINCT x, y) FROM t", "SELECT sum(DISTINCT x) FROM t", "SELECT ARRAY[] FROM t",
     "SELECT array[1, 2 FROM t", "SELECT Array [1] [0] FROM t", "SELECT CASE x FROM t", "SELECT CASE WHEN x THEN y END FROM t",
     "SELECT CASE WHEN x THEN y ELSE z FROM t", "SELECT CASE WHEN x y FROM t",
+    // the lowering's arms (naming, aggregate extraction, HAVING, join sides)
+    "SELECT sum(x) + max(y) FROM t", "SELECT k + sum(x) FROM t", "SELECT sum(x) + k FROM t", "SELECT 1 + sum(x) FROM t",
+    "SELECT x FROM t HAVING x > 1", "SELECT x FROM t INNER JOIN u::'f' ON a.k = b.k", "SELECT x FROM t INNER JOIN u::'f' ON t.k = z.k",
+    "SELECT x FROM t OUTER JOIN u::'f' ON z.k = t.k", "SELECT x FROM t INNER JOIN u::'f' ON u.a = t.b", "SELECT x FROM t INNER JOIN t::'f' ON t.a = t.b",
+    "SELECT percentile(x, 1) FROM t", "SELECT string_agg(x, 1) FROM t", "SELECT count(x + 1) FROM t", "SELECT count(t.x), count(*), COUNT(DISTINCT *) FROM t",
+    "SELECT abs(sum(x)), upper(lower(max(k))) FROM t", "SELECT sum(x) * 2 + 1, -max(x), NOT bool_and(b), max(x)::text, arr[count(*)], sum(x) IS NULL FROM t",
+    "SELECT sum(x) > 1 AND true, greatest(sum(x), 1, 2), greatest(1, k, sum(x)) FROM t", "SELECT foo(sum(x)), foo(x) FROM t", "SELECT abs(x, sum(y), z) AS a, k FROM t GROUP BY k",
+    "SELECT k FROM t GROUP BY k HAVING abs(sum(x)) > 1 AND k IN (1, max(x))", "SELECT k FROM t GROUP BY k HAVING CASE WHEN sum(x) > 1 THEN k ELSE 'a' END = k",
+    "SELECT k FROM t GROUP BY k HAVING foo(x) > 1", "SELECT k FROM t GROUP BY k HAVING (1, 2)", "SELECT k FROM t GROUP BY k HAVING count(x, y) > 1",
+    "SELECT k FROM t GROUP BY k HAVING percentile(x) > 1", "SELECT k FROM t GROUP BY k HAVING -sum(x) < k::int AND NOT a[0] IS NULL OR abs(k) = count(DISTINCT k)",
+    "SELECT k FROM t GROUP BY (k, 1)", "SELECT k FROM t GROUP BY k + 1, abs(k), foo(k)", "SELECT (CASE WHEN x THEN sum(y) ELSE 0 END) FROM t", "SELECT x IN (sum(y)) FROM t",
+    "SELECT (sum(x), 1) FROM t", "SELECT percentile(x, 1.5), percentile(x, 0.0), PERCENTILE(x, 0.25) AS p FROM t", "SELECT Sum(x), MAX(x) AS m, x, x AS y, x + 1, * FROM t GROUP BY x",
+    "SELECT *, x, 1, 'a', x AS y FROM t WHERE foo(x)", "SELECT x ^ 2 FROM t", "SELECT x FROM t WHERE (1, 2) = x", "SELECT create_array(1, x), ARRAY[sum(x)] FROM t",
+    "SELECT EXTRACT(EPOCH FROM max(ts)), EXTRACT(week FROM ts) FROM t", "SELECT count() FROM t::'file' INNER JOIN u::'f' ON u.k = t.k LIMIT 3",
+    "SELECT * FROM t", "SELECT *, * FROM t", "SELECT DISTINCT * FROM t LIMIT 2",
 ];
 
 fn rejection_texts() -> Vec<String> {
